@@ -41,6 +41,18 @@ type TypeSpec struct {
 	// Struct-backed types only: the ID field has a defined string type
 	// (type Key string) instead of string.
 	NamedID bool
+	// Struct-backed types only: the struct embeds, by value, another struct
+	// whose fields carry api tags. Only direct fields declare attributes and
+	// relationships (Check, BuildType and Wrap all agree on that), so the
+	// promoted ones must be ignored everywhere.
+	EmbedExtra bool
+	// Struct-backed types only: a field without api tag has the json name of
+	// the first attribute (the library goes by api tags only).
+	Shadow bool
+	// Struct-backed types only: the schema holds exactly what BuildType
+	// returns (a struct tag cannot express FromOne: it is false everywhere);
+	// Rels is updated to say the same once the schema is built.
+	RawRels bool
 }
 
 // SchemaSpec is a generated schema together with its description.
@@ -110,6 +122,14 @@ func (ts TypeSpec) String() string {
 
 		if ts.NamedID {
 			impl += ",named-id"
+		}
+
+		if ts.EmbedExtra {
+			impl += ",embedded-extra"
+		}
+
+		if ts.Shadow {
+			impl += ",shadow"
 		}
 	} else if ts.Derived {
 		impl = "soft,derived"
@@ -248,6 +268,22 @@ func StructTypeOf(ts *TypeSpec) reflect.Type {
 	}
 
 	fields = append(fields[:pos:pos], append([]reflect.StructField{idField}, fields[pos:]...)...)
+
+	if ts.EmbedExtra {
+		extra := reflect.StructOf([]reflect.StructField{
+			{Name: "Hidden", Type: reflect.TypeOf(""), Tag: `json:"zz-hidden" api:"attr"`},
+			{Name: "HiddenRel", Type: reflect.TypeOf([]string{}), Tag: reflect.StructTag(fmt.Sprintf(`json:"zz-hiddenrel" api:"rel,%s"`, ts.Name))},
+		})
+		fields = append(fields, reflect.StructField{Name: "Extra", Anonymous: true, Type: extra})
+	}
+
+	if ts.Shadow && len(ts.Attrs) > 0 {
+		fields = append(fields, reflect.StructField{
+			Name: "Shadow",
+			Type: reflect.TypeOf(""),
+			Tag:  reflect.StructTag(fmt.Sprintf(`json:"%s"`, ts.Attrs[0].Name)),
+		})
+	}
 
 	return reflect.StructOf(fields)
 }
@@ -453,7 +489,12 @@ func buildSchemaWithScaffold(specs []TypeSpec, at int) *SchemaSpec {
 				panic(fmt.Sprintf("gen: BuildType rejected a well-formed struct %v: %v", ts, err))
 			}
 
-			for _, r := range ts.Rels {
+			for k, r := range ts.Rels {
+				if ts.RawRels {
+					ts.Rels[k] = typ.Rels[r.FromName]
+					continue
+				}
+
 				typ.Rels[r.FromName] = r
 			}
 		} else {
@@ -482,6 +523,8 @@ type SchemaOpts struct {
 	OddFromType        bool // one-way relationships of soft types may leave FromType empty or wrong (AddRel and Check accept that)
 	OddCardinality     bool // the two sides of a pair may disagree about cardinality (Check only compares names)
 	OddRelKeys         bool // soft types may store a relationship under a map key that is not its name (hand-written literals)
+	NoWide             bool // no type with more than 64 fields
+	RawStructRels      bool // half of the struct-backed types keep the relationships exactly as BuildType returns them (FromOne never set)
 	NoConcatTwins      bool // no relationships named so that type+name concatenations coincide across types
 	OneEmptyFromType   bool // at most one one-way relationship of a soft type leaves FromType empty (what Type.AddRel callers often do)
 }
@@ -547,6 +590,9 @@ func CoherentSchema(t *rapid.T, o SchemaOpts) *SchemaSpec {
 
 		specs[i].EmbedID = rapid.IntRange(0, 5).Draw(t, "embedid") == 0
 		specs[i].NamedID = rapid.IntRange(0, 7).Draw(t, "namedid") == 0
+		specs[i].EmbedExtra = rapid.IntRange(0, 7).Draw(t, "embedextra") == 0
+		specs[i].Shadow = rapid.IntRange(0, 7).Draw(t, "shadow") == 0
+		specs[i].RawRels = o.RawStructRels && rapid.Bool().Draw(t, "rawrels")
 
 		if o.AllKindsChance > 0 && rapid.IntRange(1, o.AllKindsChance).Draw(t, "allkinds") == 1 {
 			specs[i].Attrs = AllKindAttrs()
@@ -569,6 +615,27 @@ func CoherentSchema(t *rapid.T, o SchemaOpts) *SchemaSpec {
 				Name:     name,
 				Type:     rapid.SampledFrom(Kinds).Draw(t, "kind"),
 				Nullable: rapid.Bool().Draw(t, "nullable"),
+			})
+		}
+	}
+
+	// Now and then one type is wide: more than 64 fields (bit sets, fixed
+	// buffers and small-size fast paths end there).
+	if !o.NoWide && rapid.IntRange(0, 49).Draw(t, "wide") == 33 {
+		i := rapid.IntRange(0, n-1).Draw(t, "wide-type")
+		nw := rapid.IntRange(58, 72).Draw(t, "wide-n")
+
+		for j := 0; j < nw; j++ {
+			name := fmt.Sprintf("%s%02d", rapid.SampledFrom([]string{"w", "w", "a", "z"}).Draw(t, "wide-prefix"), j)
+			if used[i][name] {
+				continue
+			}
+
+			used[i][name] = true
+			specs[i].Attrs = append(specs[i].Attrs, jsonapi.Attr{
+				Name:     name,
+				Type:     rapid.SampledFrom(Kinds).Draw(t, "wide-kind"),
+				Nullable: rapid.Bool().Draw(t, "wide-nullable"),
 			})
 		}
 	}
